@@ -1,3 +1,8 @@
 import SA.Model.Basic
+import SA.Model.Threshold
+import SA.Spec.C01
+import SA.Spec.C02
 import SA.Proofs.Bisect
+import SA.Proofs.Threshold
 import SA.Theorems.C01
+import SA.Theorems.C03
